@@ -1,6 +1,12 @@
 (* C12 -- archives are well-formed and independent of sink and compression. *)
 From Skv Require Import CodecGuards CodecWitness CodecWfFacts ShowFacts CodecNameFacts CodecRefsFacts.
+From Skv Require CodecRootFacts CodecShareFacts Fs Dump SinkFacts.
+From Skv Require Import CodecLoad CodecShareFacts CodecFacts.
 From Gen Require Import Snapshot.
+
+(* per-run obligation shared with C05: get_tree selects the node classes the model assumes *)
+Lemma C12_loader_registered_c05 : CodecShareFacts.reg_ok Snapshot.registry Snapshot.current = true.
+Proof. vm_compute. reflexivity. Qed.
 
 (* Every archive the dump produces: the root carries the current protocol and the version; at every position
    where a loader reads a node-state (CodecWf.chk follows the loaders' child positions) the state has
@@ -60,10 +66,56 @@ Theorem C12_members_exact_refuted :
 Proof. vm_compute. reflexivity. Qed.
 Print Assumptions C12_members_exact_refuted.
 
-(* the one buffer of _save is what every sink receives: in the model the archive is a function of the value alone;
-   sink and compression are no parameters of dumps_model (assurance: direct comparison on the implementation) *)
-Theorem C12_sink_indep : forall D base v (sink compression level : nat), exists r, dumps_model D base v = r.
-Proof. intros. eexists. reflexivity. Qed.
+(* Sink and compression independence.  dump/dumps = the dump model (archive = function of the value and the call's id
+   allocator only), then the zip container under the requested method/level, then ONE buffer handed to the sink
+   (coq/sys/SinkFacts.v over the file-operation model of dump).  With zipfile as an oracle that reads back what it wrote,
+   for EVERY value that dumps, every target (dumps' return value, a str/Path, an open binary file positioned anywhere
+   at its end) and every compression method and level: the bytes that reach the target are the complete buffer and
+   they contain exactly the archive `a` -- same schema, same members. *)
+Theorem C12_sink_compression_independent :
+  forall (zipc : nat -> nat -> archive -> Fs.bytes) (unzip : Fs.bytes -> option archive),
+    (forall method level a, unzip (zipc method level a) = Some a) ->
+    forall e st D base v a, dumps_model D base v = Ok a ->
+    forall t method level, SinkFacts.target_ok st t ->
+      exists b, SinkFacts.received e st t (SinkFacts.save_model zipc D base v method level) = Some b /\ unzip b = Some a.
+Proof. exact SinkFacts.sink_compression_independent. Qed.
+Print Assumptions C12_sink_compression_independent.
+
+(* ... and they load to equal objects: on the C05 fragment the archive read back from ANY target under ANY compression
+   loads to the value that was dumped (composition with the round-trip theorem) *)
+Theorem C12_any_sink_loads_equal_partial :
+  forall (zipc : nat -> nat -> archive -> Fs.bytes) (unzip : Fs.bytes -> option archive),
+    (forall method level a, unzip (zipc method level a) = Some a) ->
+    forall e st (F : cfacts) (D : denv) base v,
+    dn_cur D = Snapshot.current -> facts_sane F = true -> c05_guard F D base v = true ->
+    forall t method level, SinkFacts.target_ok st t ->
+      exists b a, SinkFacts.received e st t (SinkFacts.save_model zipc D base v method level) = Some b
+               /\ unzip b = Some a
+               /\ loads_model (cenv_of Snapshot.registry Snapshot.current F a) (a_schema a) = Ok v.
+Proof.
+  intros zipc unzip Hz e st F D base v H1 H2 H3 t method level Ht.
+  pose proof (CodecRootFacts.root_roundtrip_total _ _ F D base v H1 C12_loader_registered_c05 H2 H3) as R.
+  unfold roundtrip in R. destruct (dumps_model D base v) as [a|x] eqn:Ha; cbn [bind] in R; [|discriminate R].
+  destruct (SinkFacts.sink_compression_independent zipc unzip Hz e st D base v a Ha t method level Ht) as [b [Rb Ub]].
+  exists b, a. repeat split; assumption.
+Qed.
+Print Assumptions C12_any_sink_loads_equal_partial.
+
+(* a failing serialisation delivers nothing to any target under any compression (cf. C18) *)
+Theorem C12_failing_dump_delivers_nothing :
+  forall (zipc : nat -> nat -> archive -> Fs.bytes) e st D base v x t method level,
+    dumps_model D base v = Raise x -> SinkFacts.received e st t (SinkFacts.save_model zipc D base v method level) = None.
+Proof. exact SinkFacts.failing_dump_delivers_nothing. Qed.
+Print Assumptions C12_failing_dump_delivers_nothing.
+
+(* the premises are satisfiable: the three kinds of target on a small file system *)
+Example C12_targets_nonvacuous :
+  let st := Fs.mkfs [([PyStr.s "d"; PyStr.s "old.skops"], [1; 2; 3]%N)] [[]; [PyStr.s "d"]] in
+  SinkFacts.target_ok st SinkFacts.TBytes
+  /\ SinkFacts.target_ok st (SinkFacts.TSink (Dump.SinkPath [PyStr.s "d"; PyStr.s "new.skops"]))
+  /\ SinkFacts.target_ok st (SinkFacts.TSink (Dump.SinkPath [PyStr.s "d"; PyStr.s "old.skops"]))
+  /\ SinkFacts.target_ok st (SinkFacts.TSink (Dump.SinkFile [PyStr.s "d"; PyStr.s "old.skops"])).
+Proof. cbn. repeat split; try reflexivity. eexists; reflexivity. Qed.
 
 (* non-vacuity / examples on a nested value with .npy, .npz and .bin members *)
 Example C12_nonvacuous :
